@@ -62,6 +62,11 @@ def _run_execution(cfg, prefix, record=False):
             jm = {"name": jname, "job_start": len(ex.dev.log), "accepted_start": len(fw.accepted)}
             marks["jobs"].append(jm)
             jm["started"] = p.startprint(gcoder.GCode(list(JOBS[jname])))
+            if cfg.get("poll"):
+                # the application polls the temperature with a priority command while the job is running
+                while p.printing and p.queueindex < cfg["poll"]:
+                    sleep(0.01)
+                p.send_now("M105")
             if cfg.get("second_start"):
                 # the application asks for another print while this one is mid-stream: the call is refused (documented)
                 # and must not disturb the running job
@@ -263,6 +268,13 @@ def plan(tier):
                 base = {"job": "J4", "dialect": dialect, "greeting": None, "eager": False, "corrupt": corrupt, "second_start": True}
                 items.append(({**base, "line_points": True}, 0, None))
                 items.append(({**base, "line_points": False}, 1, None))
+        for dialect in ("A", "B"):
+            for corrupt, poll in (((), 1), ((2,), 2), ((3,), 3), ((3,), 4), ((3,), 5), ((3, 4), 5), ((1,), 1)):
+                base = {"job": "J4", "dialect": dialect, "greeting": None, "eager": False, "corrupt": corrupt, "poll": poll}
+                items.append(({**base, "line_points": True}, 0, None))
+                items.append(({**base, "line_points": False}, 1, None))
+                if poll >= 4:
+                    items.append(({**base, "line_points": True}, 1, None))
         for dialect in ("A", "B"):
             for corrupt in ((), (1,)):
                 base = {"job": "J10", "dialect": dialect, "greeting": None, "eager": False, "corrupt": corrupt}
